@@ -3,6 +3,7 @@ package props
 import (
 	"context"
 	"fmt"
+	"strings"
 	"sync"
 	"testing"
 	"time"
@@ -47,6 +48,27 @@ func genC12(t *rapid.T) C12Case {
 		tree = wrapRoot(g.Program(rootTy(t)))
 		fixEmptyLists(tree)
 		u = UniverseFor(t, tree, false)
+	}
+	if rapid.IntRange(0, 7).Draw(t, "novars") == 0 {
+		// every variable replaced by its value: a program that needs no context at all
+		ok := true
+		t0 := tree.Clone()
+		t0.Walk(func(x *m.Node) {
+			if x.Kind == m.KVar {
+				if vd := u.Var(x.Name); vd != nil && vd.Mode == 0 {
+					if l, isInts := vd.Val.X.([]int64); isInts && len(l) == 0 {
+						ok = false
+					}
+					x.Kind, x.Val, x.Name = m.KConst, vd.Val.X, ""
+				} else {
+					ok = false
+				}
+			}
+		})
+		if ok {
+			tree = t0
+			u.Vars = nil
+		}
 	}
 	c := C12Case{U: *u, Tree: tree, Costs: genCosts(t, tree, finiteCosts), CtxKind: pickW(t, "ctxkind", 4, 1, 2, 1),
 		Events: rapid.IntRange(1, 2).Draw(t, "events"), Consumer: rapid.IntRange(0, 2).Draw(t, "consumer"),
@@ -255,7 +277,9 @@ func checkC12(c C12Case, r *Rec) *Violation {
 	for _, mask := range c.Masks {
 		// the same case without events
 		logP := &Log{}
-		ccP, _ := NewConfig(u, logP, Build{Mask: mask, Costs: c.Costs})
+		// (options written fully, or only the disabled ones - absent means enabled - rotating with the case)
+		how := []int{HowMapAll, HowMapSparse}[hash64(src)%2]
+		ccP, _ := NewConfig(u, logP, Build{Mask: mask, How: how, Costs: c.Costs})
 		eP, coP := SafeCompile(ccP, src)
 		if coP.Panic != nil || coP.Err != nil {
 			return Violf("C12: compile failed: %v\nsrc=%s", coP, src)
@@ -263,7 +287,7 @@ func checkC12(c C12Case, r *Rec) *Violation {
 		dP, _ := SafeStr(func() string { return eval.Dump(eP) })
 		// with events
 		logE := &Log{}
-		ccE, _ := NewConfig(u, logE, Build{Mask: mask, Costs: c.Costs, Events: c.Events})
+		ccE, _ := NewConfig(u, logE, Build{Mask: mask, How: how, Costs: c.Costs, Events: c.Events})
 		eE, coE := SafeCompile(ccE, src)
 		if coE.Panic != nil || coE.Err != nil {
 			return Violf("C12: compile fails in event mode: %v\nsrc=%s", coE, src)
@@ -275,6 +299,38 @@ func checkC12(c C12Case, r *Rec) *Violation {
 		dt, err := m.ReadDump(dP)
 		if err != nil {
 			return Violf("C12: unreadable dump: %v\n%s", err, dP)
+		}
+		// a program without variables needs no context: with a nil *Ctx (and an empty one) the event
+		// stream is what it is with a context
+		statefulOp := false
+		c.Tree.Walk(func(x *m.Node) {
+			if x.Kind == m.KOp && x.Name == "c_cnt" {
+				statefulOp = true // (its result differs from run to run by design)
+			}
+		})
+		if len(c.Tree.VarNames()) == 0 && !c.Try && !statefulOp {
+			var streams [3][]string
+			for k, ctx := range []*eval.Ctx{{VariableFetcher: &Fetcher{Log: &Log{}}}, nil, {}} {
+				var o Outcome
+				recs := runWithConsumer(eE, 1, capacity, func() { o = Safe(func() (eval.Value, error) { return eE.Eval(ctx) }) })
+				if o.Panic != nil {
+					return Violf("C12: Eval of a variable-free program panics (context %d: 0 with fetcher, 1 nil, 2 empty)\nconfig=%s src=%s\n%v", k, maskName(mask), src, o)
+				}
+				for _, rec := range recs {
+					switch d := rec.ev.Data.(type) {
+					case eval.OpEventData:
+						streams[k] = append(streams[k], fmt.Sprintf("OP %s %v -> %v %v", d.OpName, d.Params, d.Res, d.Err != nil))
+					case eval.LoopEventData:
+						streams[k] = append(streams[k], fmt.Sprintf("LOOP %d %v", d.CurtIdx, rec.ev.Stack))
+					}
+				}
+			}
+			for k := 1; k < 3; k++ {
+				if strings.Join(streams[k], "\n") != strings.Join(streams[0], "\n") {
+					return Violf("C12: the events of a variable-free program depend on the context it is evaluated with (%s)\nconfig=%s events=%d src=%s\nwith a context:\n%s\nwithout:\n%s", []string{"", "nil *Ctx", "empty Ctx"}[k], maskName(mask), c.Events, src, clip(strings.Join(streams[0], "\n"), 1500), clip(strings.Join(streams[k], "\n"), 1500))
+				}
+			}
+			r.Class("variable-free-program-with-nil-context")
 		}
 		call := func(e *eval.Expr, f *Fetcher) Outcome {
 			ctx := f.Ctx()
@@ -327,6 +383,9 @@ func checkC12(c C12Case, r *Rec) *Violation {
 			// (i) nothing changes
 			if oE.Panic != nil || !SameOutcome(oP, oE) {
 				return Violf("C12: event reporting changes the result\n%s\nwithout events=%v\nwith events=%v", where(), oP, oE)
+			}
+			if oP.Err != nil && !(oP.Val == nil && oE.Val == nil) && !m.EqualVal(oP.Val, oE.Val) {
+				return Violf("C12: event reporting changes the value returned together with the error\n%s\nwithout events=%v (%v)\nwith events=%v (%v)", where(), oP.Val, oP.Err, oE.Val, oE.Err)
 			}
 			if !MatchTrace(run.traceE, run.traceP) {
 				return Violf("C12: event reporting changes the fetches / operator calls\n%s\nwithout events=%v\nwith events=%v", where(), m.TraceStrings(run.traceP), m.TraceStrings(run.traceE))
